@@ -12,7 +12,7 @@ RULE = ("every way of passing a file (str path, bytes path, os.PathLike, open 'r
         "compared with the Lean model over all argument combinations (which object is used, which path is opened in which mode, which error). "
         "Non-trivial: an operation that reads or writes the file; distinct by (format, sample, operation, way)")
 
-WAYS = ["str", "bytes", "pathlike", "openfile", "rawfile", "bytesio", "minimal", "kw-filename", "kw-fileobj"]
+WAYS = ["str", "bytes", "pathlike", "openfile", "rawfile", "bytesio", "minimal", "kw-filename", "kw-fileobj", "kw-both"]
 
 
 class PL(object):
@@ -51,6 +51,11 @@ def perform(fmt, data, op, way, tmpdir, name):
     elif way == "kw-fileobj":
         fobj = io.BytesIO(data); fobj.name = name
         pos, kw = (), {"fileobj": fobj}
+    elif way == "kw-both":
+        # a file object together with a file name: the object is what is read and written, the name is only remembered
+        # (no file of that name exists)
+        fobj = io.BytesIO(data)
+        pos, kw = (), {"fileobj": fobj, "filename": os.path.join(tmpdir, "no-such-dir", name)}
     else:
         fobj = MinimalFile(data, name=name)
         pos, kw = (fobj,), {}
@@ -60,7 +65,7 @@ def perform(fmt, data, op, way, tmpdir, name):
             fobj.seek(0)
 
     def result_bytes():
-        if way in ("bytesio", "kw-fileobj", "minimal"):
+        if way in ("bytesio", "kw-fileobj", "kw-both", "minimal"):
             return fobj.getvalue()
         if handle is not None:
             handle.flush()
@@ -101,7 +106,7 @@ def perform(fmt, data, op, way, tmpdir, name):
             notes.append("closed")
         else:
             handle.close()
-    if way in ("bytesio", "kw-fileobj") and fobj.closed:
+    if way in ("bytesio", "kw-fileobj", "kw-both") and fobj.closed:
         notes.append("closed")
     return out, notes
 
@@ -164,7 +169,7 @@ def check_file_detection(ctx, tmpdir):
                     h.write(data)
                 base = None
                 for way in ("str", "bytes", "pathlike", "openfile", "openfile-bytesname", "bytesio", "bytesio-bytesname", "minimal",
-                            "kw-filename", "kw-fileobj"):
+                            "kw-filename", "kw-fileobj", "kw-both", "pos-fileobj-kw-filename"):
                     handle = None
                     try:
                         if way == "str":
@@ -185,6 +190,11 @@ def check_file_detection(ctx, tmpdir):
                             f = io.BytesIO(data); f.name = os.fsencode(path); r = mutagen.File(f)
                         elif way == "kw-fileobj":
                             f = io.BytesIO(data); f.name = path; r = mutagen.File(fileobj=f)
+                        elif way == "kw-both":
+                            # the file object is what is read; the name (of no existing file) is a hint for the type only
+                            r = mutagen.File(fileobj=io.BytesIO(data), filename=os.path.join(tmpdir, "no-such-dir", name))
+                        elif way == "pos-fileobj-kw-filename":
+                            r = mutagen.File(io.BytesIO(data), filename=os.path.join(tmpdir, "no-such-dir", name))
                         else:
                             f = MinimalFile(data, name=path); r = mutagen.File(f)
                         out = (type(r).__name__, F.snapshot(fmt, r) if (r is not None and fmt.family != "none") else None)
@@ -203,6 +213,85 @@ def check_file_detection(ctx, tmpdir):
                     elif out != base[1]:
                         ctx.violation("differs:File:%s:%s-vs-%s" % (fmt.kind, out[0], base[1][0]),
                                       "mutagen.File gives %s via %s but %s via %s" % (out[0], way, base[1][0], base[0]), case)
+
+
+class _TagFile(object):
+    """adapter: a tag class (ID3, APEv2) used like a file type (obj.tags / save / delete)"""
+    tagcls = None; nohdr = None; lenient = False
+
+    def __init__(self, *a, **k):
+        try:
+            self.tags = self.tagcls(*a, **k)
+        except self.nohdr:
+            if not self.lenient:
+                raise
+            self.tags = self.tagcls()      # the documented pattern: start an empty tag, save it to the file
+
+    def save(self, *a, **k): return self.tags.save(*a, **k)
+    def delete(self, *a, **k): return self.tags.delete(*a, **k)
+
+
+class _PseudoFmt(object):
+    def __init__(self, kind, family, cls):
+        self.kind = kind; self.family = family; self.cls = cls; self.exts = (".bin",)
+
+
+def tiny_files():
+    """small and tiny files for the tag-level classes: shorter than an ID3v1 block plus the 3 extra bytes find_id3v1
+    reads (131), exactly there, just above; with and without tags"""
+    from mutagen.id3 import ID3, TIT2
+    from mutagen.apev2 import APEv2
+    v1 = b"TAG" + b"Title".ljust(30, b"\0") + b"Artist".ljust(30, b"\0") + b"Album".ljust(30, b"\0") + b"2004" + \
+        b"Comment".ljust(28, b"\0") + b"\0\x05" + b"\x11"
+    assert len(v1) == 128
+    f = io.BytesIO(); t = ID3(); t.add(TIT2(encoding=3, text=["tiny"])); t.save(f, v1=0, padding=lambda i: 0); v2 = f.getvalue()
+    f = io.BytesIO(); a = APEv2(); a["Title"] = "tiny"; a.save(f); ape = f.getvalue()
+    id3 = [("v1-only-128", v1), ("2+v1-130", b"\xff\xfb" + v1), ("3+v1-131", b"\xff\xfb\x90" + v1), ("4+v1-132", b"\xff\xfb\x90\x64" + v1),
+           ("50+v1", b"\xff\xfb\x90\x64" + b"a" * 46 + v1), ("empty", b""), ("3-bytes", b"ID3"), ("v2-only-small", v2),
+           ("v2+v1-small", v2 + v1), ("v2+20", v2 + b"\xff\xfb\x90\x64" + b"a" * 16), ("junk-100", b"j" * 100), ("short-v1-127", v1[:127])]
+    apes = [("ape-only", ape), ("ape+v1", ape + v1), ("10+ape", b"a" * 10 + ape), ("v1-only-128", v1), ("junk-40", b"j" * 40), ("empty", b""),
+            ("footer-sized-32", b"j" * 32), ("ape-footer-only", ape[-32:])]
+    return id3, apes
+
+
+def check_tag_classes(ctx, tmpdir):
+    """ID3 and APEv2 themselves (the classes that load, save and delete a tag on any file), on tiny files"""
+    from mutagen.id3 import ID3, ID3NoHeaderError
+    from mutagen.apev2 import APEv2, APENoHeaderError
+    id3_files, ape_files = tiny_files()
+    kinds = []
+    for label, tagcls, nohdr, family, files in (("ID3", ID3, ID3NoHeaderError, "id3", id3_files), ("APEv2", APEv2, APENoHeaderError, "ape", ape_files)):
+        strict = type("Strict" + label, (_TagFile,), {"tagcls": tagcls, "nohdr": nohdr, "lenient": False})
+        lenient = type("Lenient" + label, (_TagFile,), {"tagcls": tagcls, "nohdr": nohdr, "lenient": True})
+        kinds.append((label, _PseudoFmt(label, family, strict), _PseudoFmt(label, family, lenient), files))
+    for label, fstrict, flenient, files in kinds:
+        for fname, data in files:
+            for op in ("load", "save", "delete"):
+                fmt = flenient if op == "save" else fstrict
+                base = None
+                for way in WAYS:
+                    k, r = timed(lambda: perform(fmt, data, op, way, tmpdir, "t.bin"), 30)
+                    case = {"class": label, "file": fname, "data_hex": data.hex(), "op": op, "way": way}
+                    ctx.case(key=("tagclass", label, fname, op, way), nontrivial=True, modelled=False,
+                             sample=case if (label, fname, op, way) == ("ID3", "v1-only-128", "load", "str") else None)
+                    ctx.hist["tagclass-way:" + way] += 1
+                    if k != "ok":
+                        ctx.violation("%s:%s:%s:harness-%s" % (label, op, way, k), "did not finish: %r" % (r,), case); continue
+                    out, notes = r
+                    ctx.hist["tagclass-outcome:%s:%s" % (label, out[0])] += 1
+                    if "closed" in notes:
+                        ctx.violation("closes-caller-object:%s:%s" % (label, op), "the caller's file object was closed (%s)" % way, case)
+                    if base is None:
+                        base = (way, out)
+                    elif out != base[1]:
+                        if out[0] != base[1][0]:
+                            what = "outcome %s via %s but %s via %s" % (out[0], way, base[1][0], base[0])
+                            key = "differs:%s:%s:%s-vs-%s" % (label, op, out[0], base[1][0])
+                        elif out[2] != base[1][2]:
+                            what = "resulting bytes differ between %s and %s" % (way, base[0]); key = "differs:%s:%s:bytes" % (label, op)
+                        else:
+                            what = "tags differ between %s and %s" % (way, base[0]); key = "differs:%s:%s:tags" % (label, op)
+                        ctx.violation(key, what + " on the %d-byte file %s (%s)" % (len(data), fname, "; ".join(notes)[:120]), case)
 
 
 class FakeObj(object):
@@ -312,6 +401,7 @@ def run(ctx):
     try:
         check_formats(ctx, tmpdir)
         check_file_detection(ctx, tmpdir)
+        check_tag_classes(ctx, tmpdir)
     finally:
         shutil.rmtree(tmpdir, ignore_errors=True)
     check_openfile_logic(ctx)
